@@ -29,7 +29,7 @@ ASSUMPTIONS = [
     'the integer encoder is not an alarm, see C10)',
 ]
 NSH = 16
-NPROG = {'quick': 24_000, 'thorough': 600_000}
+NPROG = {'quick': 24_000, 'thorough': 1_500_000}
 NWILD = {'quick': 3, 'thorough': 6}
 
 BATTERY = [
